@@ -1,4 +1,4 @@
-import FxVerif.Proofs.C13Inv
+import FxVerif.Proofs.C13Owed
 /-!
 # C13 — oracle registry one-to-one; stake recoverable; only missed signing is slashed
 
@@ -15,7 +15,8 @@ oracle address, window comparisons `maxHeight > set.Height` / half-open batch ra
 theorem slashing_code_facts : SlashCodeOk := by decide
 
 /-- `BondedOracle` checks proposal membership, existing record, bridger index, external index, lower and upper stake bound
-before any write; `EditBridger` checks the bridger index before any write -/
+before any write; `EditBridger` checks the bridger index before any write; `AddDelegate` checks proposal membership, that
+the top-up covers an outstanding penalty, and both stake bounds before any write -/
 theorem guard_code_facts : GuardCodeOk := by decide
 
 /-- governance removal: 30 % power-change cap of the expected shape, list length bounded by `MaxOracleSize` -/
@@ -75,7 +76,9 @@ theorem bond_requires_approval_and_bounds (s : State) (o b e v amt : Nat) (h : (
 /-- topping up (and coming back online) also needs governance approval -/
 theorem add_requires_approval (s : State) (o amt : Nat) (h : (addDelegate s o amt).2 = .ok) :
     s.proposal.contains o = true := by
+  have a1 : addChecksProposal = true := guard_code_facts.2.2.2.2.2.2.2.1
   unfold addDelegate at h
+  simp only [a1, Bool.true_and] at h
   split at h
   · cases h
   · rename_i h1; simpa using h1
@@ -86,6 +89,49 @@ theorem stake_within_bounds (p : Params) (bals : Store Nat Nat) (ops : List Op) 
     (run (init p bals) ops).p.thr ≤ o.amount ∧ o.amount ≤ (run (init p bals) ops).p.thr * (run (init p bals) ops).p.mult := by
   have hi := run_inv slashing_code_facts guard_code_facts ops _ (init_inv p bals)
   exact (hi.recs a o h).2.2
+
+/-! ## stake accounting -/
+
+/-- **stake_accounting**: in every state reachable WITHOUT a validator slash (and with a positive stake threshold), for
+every oracle record that governance has never removed (ghost `undel = 0`: nothing was ever undelegated from it by
+`UpdateProposalOracles`): the recorded `DelegateAmount` is exactly what is delegated from the oracle's delegate address to
+its `DelegateValidator`, and exactly what the oracle transferred by `BondedOracle` / `AddDelegate` (ghost `sent`, net of
+the burned penalty).  Induction over the op list with the invariants `Inv`, `FitInv`, `StakeInv`. -/
+theorem stake_accounting (p : Params) (bals : Store Nat Nat) (ops : List Op) (hthr : 0 < p.thr)
+    (hops : ops.all noValSlash = true) (a : Nat) (r : Oracle)
+    (hr : Store.get (run (init p bals) ops).oracles a = some r)
+    (hnever : (ghOf (run (init p bals) ops) a).undel = 0) :
+    Store.get (run (init p bals) ops).deleg (a, r.val) = some r.amount ∧
+    (ghOf (run (init p bals) ops) a).sent = r.amount := by
+  have hall := run_all slashing_code_facts guard_code_facts ops (init p bals) hthr hops
+    ⟨init_inv p bals, init_fit p bals, init_stake p bals⟩
+  exact hall.stake.acc a r hr hnever
+
+/-- a delegate address only ever delegates to the validator its oracle record names, and only while the record exists -/
+theorem stake_only_to_recorded_validator (p : Params) (bals : Store Nat Nat) (ops : List Op) (hthr : 0 < p.thr)
+    (hops : ops.all noValSlash = true) (o v t : Nat)
+    (h : Store.get (run (init p bals) ops).deleg (o, v) = some t) :
+    ∃ r, Store.get (run (init p bals) ops).oracles o = some r ∧ r.val = v := by
+  have hall := run_all slashing_code_facts guard_code_facts ops (init p bals) hthr hops
+    ⟨init_inv p bals, init_fit p bals, init_stake p bals⟩
+  exact hall.stake.own o v t h
+
+/-- an oracle that is off the governance list has nothing delegated any more: removal undelegated all of it (the stake is
+in unbonding entries or already back at the delegate address, from where `stake_recoverable` pays it out) -/
+theorem removed_oracle_has_no_delegation (p : Params) (bals : Store Nat Nat) (ops : List Op) (hthr : 0 < p.thr)
+    (hops : ops.all noValSlash = true) (a : Nat) (r : Oracle)
+    (hr : Store.get (run (init p bals) ops).oracles a = some r) (hoff : a ∉ (run (init p bals) ops).proposal) :
+    Store.get (run (init p bals) ops).deleg (a, r.val) = none := by
+  have hall := run_all slashing_code_facts guard_code_facts ops (init p bals) hthr hops
+    ⟨init_inv p bals, init_fit p bals, init_stake p bals⟩
+  exact hall.stake.out a r hr hoff
+
+/-- every online oracle is on the governance list (so "only oracles approved by governance" hold stake that counts) -/
+theorem online_requires_approval (p : Params) (bals : Store Nat Nat) (ops : List Op) (a : Nat) (r : Oracle)
+    (hr : Store.get (run (init p bals) ops).oracles a = some r) (hon : r.online = true) :
+    a ∈ (run (init p bals) ops).proposal := by
+  have hf := run_fit slashing_code_facts guard_code_facts ops _ (init_fit p bals)
+  exact hf.onl (a, r) (mem_of_get _ _ _ hr) hon
 
 /-! ## penalty -/
 
@@ -140,6 +186,52 @@ theorem stake_recoverable (s : State) (o : Nat) (r : Oracle)
     by simp [unbonded, get_erase], by simp [unbonded, get_erase], by simp [unbonded, get_erase], ?_⟩
   unfold unbond
   simp [unbonded, hp', get_erase]
+
+/-- **stake_recoverable, for reachable states, without a balance hypothesis**: in every state reachable without a
+validator slash, an oracle that governance removed (off the list, offline), whose unbonding entries have all matured, and
+that never came back online after a removal (ghost `reon = false`; the re-approval history is the known finding), unbonds
+successfully and is paid the delegate-address balance minus the penalty — and that balance is at least the recorded
+stake, so it gets back at least `DelegateAmount − penalty`.  The stake cannot get lost on the way: delegated + unbonding +
+held by the delegate address ≥ recorded stake is an invariant (`OwedInv`), removal moves all of it into unbonding entries
+(`StakeInv.out`), maturity moves it to the delegate address. -/
+theorem stake_recoverable_reachable (p : Params) (bals : Store Nat Nat) (ops : List Op) (hthr : 0 < p.thr)
+    (hops : ops.all noValSlash = true) (a : Nat) (r : Oracle)
+    (hr : Store.get (run (init p bals) ops).oracles a = some r)
+    (hoff : (run (init p bals) ops).proposal.contains a = false) (hoffl : r.online = false)
+    (hmat : (run (init p bals) ops).ubds.all (fun u => u.oracle != a) = true)
+    (hre : (ghOf (run (init p bals) ops) a).reon = false) :
+    let s := run (init p bals) ops
+    (unbond s a).2 = .ok ∧
+    getBal (unbond s a).1.bal a = getBal s.bal a + (getBal s.dbal a - slashAmount s.p r) ∧
+    r.amount ≤ getBal s.dbal a ∧
+    Store.get (unbond s a).1.oracles a = none := by
+  intro s
+  have hall := run_all2 slashing_code_facts guard_code_facts ops (init p bals) hthr hops
+    ⟨⟨init_inv p bals, init_fit p bals, init_stake p bals⟩, init_owed p bals⟩
+  have hnin : a ∉ s.proposal := by simpa using hoff
+  have hdel : Store.get s.deleg (a, r.val) = none := hall.all.stake.out a r hr hnin
+  have how := hall.owed.ow a r hr hre
+  have hub : ubdSum s a = 0 := by
+    simp only [ubdSum]
+    have : s.ubds.filter (fun u => u.oracle == a) = [] := by
+      rw [List.filter_eq_nil_iff]
+      intro u hu
+      have := (List.all_eq_true.mp hmat) u hu
+      simpa using this
+    rw [this]; rfl
+  have hda : delegAmt s a r.val = 0 := by simp only [delegAmt]; rw [hdel]; rfl
+  have hbal : r.amount ≤ getBal s.dbal a := by
+    have how' : r.amount ≤ delegAmt s a r.val + ubdSum s a + getBal s.dbal a := how
+    rw [hda, hub] at how'; omega
+  have hpend : s.ubds.any (fun u => u.oracle == a && u.val == r.val) = false := by
+    rw [List.any_eq_false]
+    intro u hu
+    have := (List.all_eq_true.mp hmat) u hu
+    have hne : ¬ u.oracle = a := by simpa using this
+    simp [hne]
+  have hsl : slashAmount s.p r ≤ getBal s.dbal a := Nat.le_trans (penalty_le_stake s.p r) hbal
+  obtain ⟨h1, h2, _, _, h5, _⟩ := stake_recoverable s a r hr hoff hoffl hpend hsl
+  exact ⟨h1, h2, hbal, h5⟩
 
 /-- before maturity the unbond is refused and nothing changes (the record that entitles the oracle to its stake stays) -/
 theorem unbond_waits_for_maturity (s : State) (o : Nat) (r : Oracle)
@@ -238,5 +330,19 @@ example : (step (run (init pEx bEx) (life.take 2)) (.bond 1 1 0 0 100)).2 = .err
 def aged : State := run (init pEx bEx) [.gov [0, 1], .bond 0 0 0 0 100, .bond 1 1 1 0 100, .mkcall, .conf .call 1 1 1 true, .block 5, .conf .os 1 0 0 true, .conf .os 1 1 1 true, .block 5, .block 5]
 example : ((Store.get (block aged 5).1.oracles 0).map (·.online), (Store.get (block aged 5).1.oracles 1).map (·.online)) =
     (some false, some true) := by decide
+
+-- stake_accounting: hypotheses satisfiable, and the `undel = 0` hypothesis cannot be dropped — the known finding as a
+-- model witness: removal + re-approval + AddDelegate leaves DelegateAmount = 100 + 100 while only 100 is delegated
+def reapproved : State := run (init pEx bEx) (life.take 6 ++ [.gov [0, 1, 2, 3], .add 0 100])
+example : life.all noValSlash = true ∧ 0 < pEx.thr := by decide
+example : (ghOf (run (init pEx bEx) (life.take 5)) 0).undel = 0 ∧
+    Store.get (run (init pEx bEx) (life.take 5)).deleg (0, 0) = some 100 := by decide
+example : ((Store.get reapproved.oracles 0).map (fun r => (r.amount, r.online)), Store.get reapproved.deleg (0, 0),
+    (ghOf reapproved 0).undel) = (some (200, true), some 100, 100) := by decide
+
+-- stake_recoverable_reachable: its hypotheses hold in the reachable state `life` (oracle 0 removed, matured)
+example : (run (init pEx bEx) life).proposal.contains 0 = false ∧
+    (run (init pEx bEx) life).ubds.all (fun u => u.oracle != 0) = true ∧ (ghOf (run (init pEx bEx) life) 0).reon = false ∧
+    ((Store.get (run (init pEx bEx) life).oracles 0).map (·.online)) = some false := by decide
 
 end FxVerif.Props.C13
